@@ -457,7 +457,7 @@ def gen_finalizer(rng: Random, tag: str, depth: int = 0) -> dict:
 
 def gen_pipeline(rng: Random, tag: str = "", n_items: tuple[int, int] = (1, 4), post: float = 0.4,
                  final: float = 0.25, kinds: list[str] | None = None, with_vars: float = 0.6,
-                 prio: bool = False, name: str | None = None) -> dict:
+                 prio: bool = False, name: str | None = None, nest: float = 0.0) -> dict:
     spec: dict[str, Any] = {}
     if name is not None:
         spec["name"] = name
@@ -493,6 +493,26 @@ def gen_pipeline(rng: Random, tag: str = "", n_items: tuple[int, int] = (1, 4), 
         spec["postprocessing"] = [gen_postprocessing(rng, tag + str(i)) for i in range(rng.randint(1, 2))]
     if chance(rng, final):
         spec["finalizers"] = [gen_finalizer(rng, tag + str(i)) for i in range(rng.randint(1, 2))]
+    if nest and chance(rng, nest):
+        # a nested post-processing item (a pipeline inside the item; world.build_pipeline builds it with the
+        # Python API) whose inner items are rule-conditional and carry explicit identifiers, optionally
+        # followed by an item that depends on whether an inner item was applied to *this* rule
+        inner = []
+        for j in range(rng.randint(1, 2)):
+            it = gen_postprocessing(rng, f"{tag}n{j}")
+            it["id"] = f"ppn{tag}{j}"
+            if chance(rng, 0.7):
+                it["rule_conditions"] = [{"type": "logsource", "product": pick(rng, PRODUCTS)}]
+            inner.append(it)
+        outer: dict[str, Any] = {"type": "nest", "items": inner}
+        if chance(rng, 0.3):
+            outer["id"] = f"nest{tag}"
+        pp = spec.setdefault("postprocessing", [])
+        pp.insert(rng.randint(0, len(pp)), outer)
+        if chance(rng, 0.4):
+            dep = gen_postprocessing(rng, tag + "ndep")
+            dep["rule_conditions"] = [{"type": "processing_item_applied", "processing_item_id": inner[0]["id"]}]
+            pp.append(dep)
     return spec
 
 
